@@ -197,11 +197,23 @@ func c25Chunk(p *an.Prog, r *an.R) {
 		}
 		g := an.NewG(info, lit.Body)
 		for _, l := range g.Locs(func(ast.Node) bool { return true }) {
-			as, ok := g.Node(l).(*ast.AssignStmt)
-			if !ok || len(as.Rhs) != 1 {
+			// the attach site: `x = <r>.GetStats()`, or `return <r>.GetStats()` in a small closure handing the stats out
+			var as ast.Node
+			var rhs ast.Expr
+			switch x := g.Node(l).(type) {
+			case *ast.AssignStmt:
+				if len(x.Rhs) == 1 {
+					as, rhs = x, x.Rhs[0]
+				}
+			case *ast.ReturnStmt:
+				if len(x.Results) == 1 {
+					as, rhs = x, x.Results[0]
+				}
+			}
+			if as == nil {
 				continue
 			}
-			call, ok := ast.Unparen(as.Rhs[0]).(*ast.CallExpr)
+			call, ok := ast.Unparen(rhs).(*ast.CallExpr)
 			if !ok {
 				continue
 			}
